@@ -436,6 +436,8 @@ func runC04(e *Engine, r *Report) {
 	ruleDurableMkdir(e, r)
 	ruleTanManifestSync(e, r)
 	ruleTanNewLogOrder(e, r)
+	ruleTanSwitchOrder(e, r)
+	ruleRawMkdir(e, r)
 	ruleReplaySetsState(e, r)
 	ruleSnapshotRecordKeepsLogEnd(e, r)
 	ruleTanFileInUse(e, r)
